@@ -154,6 +154,46 @@ def key_independence_probe(ck, quick):
                                            case={"num_envs": N, "num_steps": T, "seed": ck.seed * 100 + rep}))
 
 
+def dict_observation_probe(ck, rng, n):
+    """Structured (Dict) observation spaces whose keys are NOT in alphabetical order, flattened by FlattenObservation: the observation must
+    be the same eagerly, under jit with the environment passed as an ARGUMENT (it is rebuilt from its pytree leaves there), and vmapped"""
+    from collections import OrderedDict
+    from lerax.space import Box as _Box, Dict as _Dict
+    from lerax.wrapper import FlattenObservation, TransformObservation
+    for idx in range(n):
+        spec = random_tab(rng, box_obs=True, noise=False, box_action=False)
+        spec["osp"][1] = False
+        base = TabEnv(spec)
+        keys = [["position", "goal"], ["z", "a", "m"], ["b", "a"], ["velocity", "angle", "bias"]][idx % 4]
+        sizes = [int(rng.integers(1, 3)) for _ in keys]
+        dspace = _Dict(OrderedDict((k, _Box(-jnp.inf, jnp.inf, shape=(sz,))) for k, sz in zip(keys, sizes)))
+        offs = [10.0 * (i + 1) for i in range(len(keys))]
+
+        def to_dict(o, keys=keys, sizes=sizes, offs=offs):
+            o = jnp.asarray(o, dtype=float).reshape(())
+            return OrderedDict((k, o + off + jnp.arange(sz, dtype=float)) for k, sz, off in zip(keys, sizes, offs))
+        env = FlattenObservation(TransformObservation(base, to_dict, dspace))
+        st = env.initial(key=jr.key(idx))
+        ck.current_case = {"what": "FlattenObservation over a Dict observation space", "keys_in_declaration_order": keys, "sizes": sizes}
+        eager = np.asarray(env.observation(st, key=jr.key(1)))
+        jitted = np.asarray(eqx.filter_jit(lambda e, s, k: e.observation(s, key=k))(env, st, jr.key(1)))
+        fjit = np.asarray(eqx.filter_jit(lambda e, s, k: e.observation(s, key=k))(env, st, jr.key(1)))
+        vm = np.asarray(jax.vmap(lambda s, k: env.observation(s, key=k))(jax.tree.map(lambda x: jnp.stack([x, x]), st), jr.split(jr.key(1), 2)))[0]
+        _, robs, _ = env.reset(key=jr.key(idx))       # the library's own jitted Gym-style API
+        eager_reset = np.asarray(env.observation(env.initial(key=jr.split(jr.key(idx), 2)[0]), key=jr.split(jr.key(idx), 2)[1]))
+        ck.count("dict_observation_probes"); ck.evaluations += 5
+        ck.case_seen(("dict-obs", tuple(keys)) if keys != sorted(keys) else None)
+        bad = [nm for nm, v in (("eqx.filter_jit(env as argument)", fjit), ("jax.vmap", vm)) if not np.array_equal(v, eager)]
+        if not np.array_equal(np.asarray(robs), eager_reset):
+            bad.append("env.reset (jitted by lerax) vs eager initial/observation")
+        if bad:
+            ck.violations.append(Violation("impl-violates-property", "C12/dict-observation/eager-vs-transformed",
+                                           "the flattened observation of a Dict observation space differs between eager evaluation and: " + ", ".join(bad),
+                                           case={**ck.current_case, "eager": eager.tolist(), "jit": jitted.tolist(), "filter_jit": fjit.tolist(), "vmap": vm.tolist(),
+                                                 "reset_observation": np.asarray(robs).tolist(), "eager_reset_observation": eager_reset.tolist()}))
+    ck.current_case = None
+
+
 SPY: list = []
 
 
@@ -314,6 +354,7 @@ def body(ck):
     real_vs_real(ck, ck.rng, 5 if quick else 60)
     key_independence_probe(ck, quick)
     iteration_vs_singles(ck, ck.rng, 3 if quick else 20)
+    dict_observation_probe(ck, ck.rng, 4 if quick else 16)
     cases, cj = [], []
     for i in range(15 if quick else 250):
         lit, j, meta = gen_rollout_case(ck, ck.rng, 700_000 + i, force_vec=True)
